@@ -10,7 +10,7 @@ TRUSTED = ["Lean 4.33 kernel; axioms ⊆ {propext, Classical.choice, Quot.sound}
            "a signal handler runs to completion on the interrupted thread before that thread's code resumes (POSIX); handlers are delivered at every shimmed access / barrier / lock event of the thread (the only thread-private access between two such points is the plain read of the thread's own word, so every distinct interruption class is reachable); real asynchronous delivery at instruction granularity is not exercised",
            "same grace-period model and tie as C01 (Gp/Flip.lean with handler frames sigPush/sigPop); qsbr excluded as documented",
            "bp: registration and synchronize_rcu run with signals blocked (observed as SIGMASK events in the trace; the runtime does not deliver synthetic signals while blocked)"]
-OWN = {"sigbalance", "gp", "litmus"}
+OWN = {"sigbalance", "gp", "litmus", "SELFLOCK"}
 CONFIGS = [c for c in gp_common.CONFIGS if c[0] in ("memb", "mb", "bp")]
 
 
